@@ -747,8 +747,10 @@ StringStringMap transferUnitsRenamingIfRequired(const ModelPtr &sourceModel, con
             std::string reference = units->unitAttributeReference(unitIndex);
             if (!reference.empty() && !isStandardUnitName(reference) && sourceModel->hasUnits(reference)) {
                 auto clonedChildUnits = sourceModel->units(reference)->clone();
-                transferUnitsRenamingIfRequired(sourceModel, targetModel, clonedChildUnits, component);
-                units->setUnitAttributeReference(unitIndex, clonedChildUnits->name());
+                auto childChangedNames = transferUnitsRenamingIfRequired(sourceModel, targetModel, clonedChildUnits, component);
+                // The child units may have been added under a new name or replaced by equivalent units with another name.
+                auto changedName = childChangedNames.find(reference);
+                units->setUnitAttributeReference(unitIndex, (changedName != childChangedNames.end()) ? changedName->second : reference);
             }
         }
 
@@ -789,8 +791,10 @@ void retrieveUnitsDependencies(const ModelPtr &flatModel, const ModelPtr &model,
                 flatModel->addUnits(childUnits);
                 flattenUnitsImports(flatModel, childUnits, flatModelUnitsIndex, component);
             } else {
-                transferUnitsRenamingIfRequired(model, flatModel, childUnits, component);
-                u->setUnitAttributeReference(unitIndex, childUnits->name());
+                auto childChangedNames = transferUnitsRenamingIfRequired(model, flatModel, childUnits, component);
+                // The child units may have been added under a new name or replaced by equivalent units with another name.
+                auto changedName = childChangedNames.find(reference);
+                u->setUnitAttributeReference(unitIndex, (changedName != childChangedNames.end()) ? changedName->second : reference);
                 retrieveUnitsDependencies(flatModel, model, childUnits, component);
             }
         }
